@@ -67,22 +67,33 @@ Section Now.
   Theorem now_panics_only_search c s : scale_order o -> try_as_spdc_now c = Panic s -> s = SiteNelderMeadUnwrap.
   Proof. apply validated_panics_only_search. Qed.
 
+  Theorem now_no_panic_at c : scale_order o -> searches_defined_at o K c -> is_panic (try_as_spdc_now c) = false.
+  Proof. apply validated_no_panic_at. Qed.
   Theorem now_no_panic c : scale_order o -> searches_total K -> is_panic (try_as_spdc_now c) = false.
   Proof. apply validated_no_panic. Qed.
 
-  (* the property's first sentence: Ok with nothing non-finite, or Err; never a panic *)
+  (* the property's first sentence: Ok with nothing non-finite, or Err; never a panic -- under the definedness of what THIS
+     configuration computes *)
+  Theorem now_ok_finite_or_err_at c :
+    scale_order o -> searches_defined_at o K c -> geometry_defined_at o K minpos cfg_rejects_bad_period c ->
+    (forall signal, signal_step o K c = Ok signal -> neqb o (o_dkz0 K signal (cfg_pump o c) (cfg_cs0 o c)) (n0 o) = false) ->
+    (exists s, try_as_spdc_now c = Ok (s, [])) \/ (exists e, try_as_spdc_now c = Err e).
+  Proof.
+    intros Hlaw Htot Hgeo Hz. pose proof (now_no_panic_at c Hlaw Htot) as Hnp.
+    destruct (try_as_spdc_now c) as [[s nf] | e | st] eqn:Hr.
+    - left. exists s. destruct (cfg_le o c) eqn:Hle.
+      + rewrite (now_le c Hle) in Hr. discriminate.
+      + rewrite (now_steps c Hle) in Hr. rewrite (finite_at num o U K minpos _ c s nf Hgeo Hz Hr). reflexivity.
+    - right. exists e. reflexivity.
+    - discriminate.
+  Qed.
   Theorem now_ok_finite_or_err c :
     scale_order o -> searches_total K -> geometry_defined K ->
     (forall signal, signal_step o K c = Ok signal -> neqb o (o_dkz0 K signal (cfg_pump o c) (cfg_cs0 o c)) (n0 o) = false) ->
     (exists s, try_as_spdc_now c = Ok (s, [])) \/ (exists e, try_as_spdc_now c = Err e).
   Proof.
-    intros Hlaw Htot Hgeo Hz. pose proof (now_no_panic c Hlaw Htot) as Hnp.
-    destruct (try_as_spdc_now c) as [[s nf] | e | st] eqn:Hr.
-    - left. exists s. destruct (cfg_le o c) eqn:Hle.
-      + rewrite (now_le c Hle) in Hr. discriminate.
-      + rewrite (now_steps c Hle) in Hr. rewrite (finite_partial num o U K minpos _ c s nf Hgeo Hz Hr). reflexivity.
-    - right. exists e. reflexivity.
-    - discriminate.
+    intros Hlaw Htot Hgeo. apply now_ok_finite_or_err_at; [exact Hlaw | apply searches_total_at; exact Htot |].
+    apply geometry_defined_every. exact Hgeo.
   Qed.
 End Now.
 Arguments try_as_spdc_now {num} o U K minpos c.
